@@ -183,7 +183,7 @@ Definition rt_show (buf : list Z) : list tok :=
                        end) getter_bits);
    TN (4 + zlen buf)].
 
-(* ops: 0 new | 1 parse x<payload> | 2 set <bit> x<value> | 3 opt <flag> x<data>;  state = the object, if any *)
+(* ops: 0 new | 1 parse x<payload> | 2 set <bit> x<value> | 3 opt <flag> x<data> | 4 noinner;  state = the object, if any *)
 Definition rt_apply (buf : list Z) (r : res (list Z)) : option (list Z) * list tok :=
   match r with
   | Ok b' => (Some b', rt_show b')
@@ -209,5 +209,6 @@ Definition rt_step (st : option (list Z)) (op : Z) (args : list tok) : option (l
       end
   | 2, [TN bit; TB v], Some buf => rt_apply buf (write_option buf (Z.shiftl 1 bit) (setter_data bit v))
   | 3, [TN flag; TB d], Some buf => rt_apply buf (write_option buf flag d)
+  | 4, [], Some buf => (Some buf, rt_show buf)      (* noinner: the 802.11 frame is taken away; the header does not change *)
   | _, _, _ => (st, [TN (-3)])
   end.
